@@ -412,17 +412,6 @@ theorem sound_and_true_B : stmt_and_true_B := by
   simp only [lhs_and_true_B, rhs_and_true_B, cond_and_true_B] at *
   rcases v_a with _ | _ | _ <;> xclose
 
--- rule:and-null (and null ?a) => null
-theorem unsound_and_null_B : ¬ stmt_and_null_B := by
-  intro h
-  have := h (some false) (by simp [cond_and_null_B, notZeroN, notZeroB, condGe, condGt, condLe, condLt])
-  simp [lhs_and_null_B, rhs_and_null_B, nAdd, nSub, nMul, nDiv, nMod, nNeg, eqO, neO, ltO, gtO, leO, geO, ite3, isNull3] at this
-
-theorem sound_and_null_B_partial : ∀ (v_a : Option Bool), v_a ≠ some false → cond_and_null_B v_a = true → lhs_and_null_B v_a = rhs_and_null_B v_a := by
-  intro v_a hn_a hc
-  simp only [lhs_and_null_B, rhs_and_null_B, cond_and_null_B] at *
-  rcases v_a with _ | _ | _ <;> first | rfl | exact absurd rfl hn_a
-
 -- rule:and-comm (and ?a ?b) => (and ?b ?a)
 theorem sound_and_comm_BB : stmt_and_comm_BB := by
   intro v_a v_b hc
@@ -606,17 +595,6 @@ theorem sound_or_true_B : stmt_or_true_B := by
   simp only [lhs_or_true_B, rhs_or_true_B, cond_or_true_B] at *
   rcases v_a with _ | _ | _ <;> xclose
 
--- rule:or-null (or null ?a) => null
-theorem unsound_or_null_B : ¬ stmt_or_null_B := by
-  intro h
-  have := h (some true) (by simp [cond_or_null_B, notZeroN, notZeroB, condGe, condGt, condLe, condLt])
-  simp [lhs_or_null_B, rhs_or_null_B, nAdd, nSub, nMul, nDiv, nMod, nNeg, eqO, neO, ltO, gtO, leO, geO, ite3, isNull3] at this
-
-theorem sound_or_null_B_partial : ∀ (v_a : Option Bool), v_a ≠ some true → cond_or_null_B v_a = true → lhs_or_null_B v_a = rhs_or_null_B v_a := by
-  intro v_a hn_a hc
-  simp only [lhs_or_null_B, rhs_or_null_B, cond_or_null_B] at *
-  rcases v_a with _ | _ | _ <;> first | rfl | exact absurd rfl hn_a
-
 -- rule:or-comm (or ?a ?b) => (or ?b ?a)
 theorem sound_or_comm_BB : stmt_or_comm_BB := by
   intro v_a v_b hc
@@ -666,5 +644,26 @@ theorem sound_add_or_distri_BBB : stmt_add_or_distri_BBB := by
   intro v_a v_b v_c hc
   simp only [lhs_add_or_distri_BBB, rhs_add_or_distri_BBB, cond_add_or_distri_BBB] at *
   rcases v_a with _ | _ | _ <;> rcases v_b with _ | _ | _ <;> rcases v_c with _ | _ | _ <;> xclose
+
+-- regression statements for rules repaired in /repo (audited by name: EXTRA_THEOREMS) -----------------
+
+/-- The removed rule `and-null` (`(and null ?a) => null`, /repo bf65f8a) is not an equivalence, and no
+rule rewriting `NULL AND a` to a constant is: the value depends on `a`. -/
+theorem and_null_not_equivalence : ¬ ∃ c : Option Bool, ∀ a : Option Bool, and3 none a = c := by
+  rintro ⟨c, h⟩
+  have h1 := h (some false)
+  have h2 := h (some true)
+  simp [and3] at h1 h2
+  rw [← h1] at h2
+  cases h2
+
+/-- The removed rule `or-null` (`(or null ?a) => null`). -/
+theorem or_null_not_equivalence : ¬ ∃ c : Option Bool, ∀ a : Option Bool, or3 none a = c := by
+  rintro ⟨c, h⟩
+  have h1 := h (some false)
+  have h2 := h (some true)
+  simp [or3] at h1 h2
+  rw [← h1] at h2
+  cases h2
 
 end RlModel.C01
